@@ -4,6 +4,8 @@ package lab
 
 import (
 	"fmt"
+	"regexp"
+	"sort"
 	"strings"
 
 	sebufhttp "github.com/SebastienMelki/sebuf/http"
@@ -60,12 +62,104 @@ func uniq(in []string) []string {
 	return out
 }
 
+// ExtraOpt is an option constructor found in an emitted Go client that is none of the documented
+// ones (HTTP client, content type, default/per-call header, typed header helpers).
+type ExtraOpt struct {
+	Name   string   // function name without the With<Service> prefix
+	Scope  string   // "call" | "client"
+	Params []string // parameter types in order
+	Driven bool     // the glue can pass it (call scope, supported parameter types)
+}
+
+var optionFuncRe = regexp.MustCompile(`(?m)^func With(\w+)\(([^)]*)\) (\w+?)(Call|Client)Option \{`)
+
+// paramTypes parses "key, value string" / "d time.Duration" into the list of types.
+func paramTypes(list string) []string {
+	var out []string
+	pending := 0
+	for _, p := range strings.Split(list, ",") {
+		p = strings.TrimSpace(p)
+		if p == "" {
+			continue
+		}
+		parts := strings.Fields(p)
+		if len(parts) == 1 {
+			pending++
+			continue
+		}
+		t := strings.Join(parts[1:], " ")
+		for i := 0; i <= pending; i++ {
+			out = append(out, t)
+		}
+		pending = 0
+	}
+	return out
+}
+
+func extraArgExpr(g *protogen.GeneratedFile, typ, v string) (string, bool) {
+	id := func(pkg, name string) string {
+		return g.QualifiedGoIdent(protogen.GoIdent{GoName: name, GoImportPath: protogen.GoImportPath(pkg)})
+	}
+	switch typ {
+	case "string":
+		return v, true
+	case "time.Duration":
+		return "func() " + id("time", "Duration") + " { d, _ := " + id("time", "ParseDuration") + "(" + v + "); return d }()", true
+	case "bool":
+		return "(" + v + ` == "true")`, true
+	case "int", "int32", "int64", "uint", "uint32", "uint64":
+		return "func() " + typ + " { n, _ := " + id("strconv", "ParseInt") + "(" + v + ", 10, 64); return " + typ + "(n) }()", true
+	case "float64", "float32":
+		return "func() " + typ + " { n, _ := " + id("strconv", "ParseFloat") + "(" + v + ", 64); return " + typ + "(n) }()", true
+	}
+	return "", false
+}
+
+// discoverExtras lists the undocumented option constructors of service s in the emitted client sources.
+func discoverExtras(s *protogen.Service, clientSrc map[string]string) []ExtraOpt {
+	known := map[string]bool{"HTTPClient": true, "ContentType": true, "DefaultHeader": true, "Header": true, "CallContentType": true}
+	for _, h := range append(svcHeaders(s), methodHeaders(s)...) {
+		known[helperFuncName(h)] = true
+		known["Call"+helperFuncName(h)] = true
+	}
+	var names []string
+	for n := range clientSrc {
+		names = append(names, n)
+	}
+	sort.Strings(names)
+	var out []ExtraOpt
+	seen := map[string]bool{}
+	for _, n := range names {
+		for _, m := range optionFuncRe.FindAllStringSubmatch(clientSrc[n], -1) {
+			if m[3] != s.GoName || !strings.HasPrefix(m[1], s.GoName) {
+				continue
+			}
+			name := strings.TrimPrefix(m[1], s.GoName)
+			if known[name] || seen[name] {
+				continue
+			}
+			seen[name] = true
+			e := ExtraOpt{Name: name, Scope: strings.ToLower(m[4]), Params: paramTypes(m[2])}
+			out = append(out, e)
+		}
+	}
+	return out
+}
+
 // Glue generates one zz_glue file per generated proto file that has services.
 // labrtImport is the import path of the labrt package inside the lab module.
 func Glue(req *pluginpb.CodeGeneratorRequest, feat Features, labrtImport string, helpers bool) (map[string]string, error) {
+	out, _, err := GlueX(req, feat, labrtImport, helpers, nil)
+	return out, err
+}
+
+// GlueX is Glue with the emitted client sources: undocumented option constructors found there are
+// returned per service (full name) and, where their parameter types allow, wired to CallOpts.Extra.
+func GlueX(req *pluginpb.CodeGeneratorRequest, feat Features, labrtImport string, helpers bool, clientSrc map[string]string) (map[string]string, map[string][]ExtraOpt, error) {
+	extras := map[string][]ExtraOpt{}
 	plug, err := protogen.Options{}.New(proto.Clone(req).(*pluginpb.CodeGeneratorRequest))
 	if err != nil {
-		return nil, fmt.Errorf("glue: protogen: %w", err)
+		return nil, nil, fmt.Errorf("glue: protogen: %w", err)
 	}
 	rt := protogen.GoImportPath(labrtImport)
 	for _, f := range plug.Files {
@@ -132,6 +226,22 @@ func Glue(req *pluginpb.CodeGeneratorRequest, feat Features, labrtImport string,
 			if feat.Client {
 				sh := uniq(svcHeaders(s))
 				mh := uniq(append(svcHeaders(s), methodHeaders(s)...))
+				var ex []ExtraOpt
+				for _, e := range discoverExtras(s, clientSrc) {
+					e.Driven = e.Scope == "call" && len(e.Params) >= 1 && len(e.Params) <= 2
+					for _, t := range e.Params {
+						if _, ok := extraArgExpr(g, t, "kv.V"); !ok {
+							e.Driven = false
+						}
+					}
+					if len(e.Params) == 2 && e.Params[0] != "string" {
+						e.Driven = false
+					}
+					extras[full] = append(extras[full], e)
+					if e.Driven {
+						ex = append(ex, e)
+					}
+				}
 				g.P(g.QualifiedGoIdent(rt.Ident("RegisterClient")), `("`, full, `", func(baseURL string, o `, g.QualifiedGoIdent(rt.Ident("ClientOpts")), ") map[string]", g.QualifiedGoIdent(rt.Ident("Invoker")), " {")
 				g.P("var copts []", s.GoName, "ClientOption")
 				g.P("if o.HTTP != nil { copts = append(copts, With", s.GoName, "HTTPClient(o.HTTP)) }")
@@ -154,6 +264,27 @@ func Glue(req *pluginpb.CodeGeneratorRequest, feat Features, labrtImport string,
 					g.P("var opts []", s.GoName, "CallOption")
 					g.P("for _, kv := range co.Headers { opts = append(opts, With", s.GoName, "Header(kv.K, kv.V)) }")
 					g.P(`if co.ContentType != "" { opts = append(opts, With`, s.GoName, "CallContentType(co.ContentType)) }")
+					if len(ex) > 0 {
+						g.P("for _, kv := range co.Extra {")
+						g.P("switch kv.K {")
+						for _, e := range ex {
+							if !e.Driven {
+								continue
+							}
+							var args []string
+							for i, t := range e.Params {
+								v := "kv.V"
+								if len(e.Params) == 2 && i == 0 {
+									v = `"X-Lab-Extra"`
+								}
+								a, _ := extraArgExpr(g, t, v)
+								args = append(args, a)
+							}
+							g.P(`case "`, e.Name, `": opts = append(opts, With`, s.GoName, e.Name, "(", strings.Join(args, ", "), "))")
+						}
+						g.P("}")
+						g.P("}")
+					}
 					if helpers && len(mh) > 0 {
 						g.P("for _, kv := range co.Helpers {")
 						g.P("switch kv.K {")
@@ -176,11 +307,11 @@ func Glue(req *pluginpb.CodeGeneratorRequest, feat Features, labrtImport string,
 	}
 	resp := plug.Response()
 	if resp.Error != nil {
-		return nil, fmt.Errorf("glue: %s", resp.GetError())
+		return nil, nil, fmt.Errorf("glue: %s", resp.GetError())
 	}
 	out := map[string]string{}
 	for _, f := range resp.File {
 		out[f.GetName()] = f.GetContent()
 	}
-	return out, nil
+	return out, extras, nil
 }
